@@ -111,13 +111,14 @@ func guarded(tg string, f func() (pubsub.ValidationResult, error)) Obs {
 
 // Targets selects what a case is run on.
 type Targets struct {
-	Fn     bool
-	Access bool
-	Keyper bool
+	Fn       bool
+	Access   bool
+	Keyper   bool
+	Assembly string // "" | "code" (registration order of the code) | "both" (also the reverse order)
 }
 
 // RunCase concretises the case in the universe and runs it on the selected targets.
-func RunCase(u *Universe, c *Case, tg Targets, kp *KeyperEnv) Line {
+func RunCase(u *Universe, c *Case, tg Targets, kp *KeyperEnv, as *AssemblyEnv) Line {
 	line := Line{C: *c, U: u.ID, Obs: []Obs{}}
 	msg := u.Message(c)
 	if tg.Fn && c.LastAnn() != "" { // the bare functions are only ever called with the eon's keyper set
@@ -157,6 +158,13 @@ func RunCase(u *Universe, c *Case, tg Targets, kp *KeyperEnv) Line {
 	}
 	if tg.Keyper && kp != nil {
 		line.Obs = append(line.Obs, kp.Run(u, c, msg))
+	}
+	if tg.Assembly != "" && as != nil {
+		orders := []string{"code"}
+		if tg.Assembly == "both" {
+			orders = append(orders, "rev")
+		}
+		line.Obs = append(line.Obs, as.Run(u, c, msg, orders)...)
 	}
 	return line
 }
